@@ -67,17 +67,19 @@ ASSUMPTIONS = [
     "rate matrices whose symmetrised form has a repeated or nearly repeated eigenvalue (relative gap < 1e-4: equal exchangeabilities, HKY/K80 with equal "
     "frequencies, kappa = 1, ...) are the subject of the deterministic sub-check degenerate_start (known finding) and are classified by the tag "
     "repeated_eig in the generated search; the spectrum is computed by numpy from the documented rate matrix (from q() for MG94)",
-    "tolerance 1e-6 max(1,|g|) + error estimate of the Richardson tableau (2 x last correction + (3 x measured evaluation noise + 8 eps |f|) / h; "
+    "tolerance 1e-6 max(1,|g|) + error estimate of the Richardson tableau (2 x last correction + (3 x measured evaluation noise + 8 eps |f|) / h; the noise is measured by fourth differences of evaluations 1e-3 h apart; "
     "step ratio 1.7); a comparison whose error estimate exceeds 1e-4 max(1,|g|) is counted as inconclusive (label), never as a violation; a "
     "disagreement is reported only if two further tableaux with unrelated step sequences (0.77 h, 0.53 h) disagree with autograd as well "
     "(rounding errors of the value - rare one-ulp flips amplified by cancellation in P(t) for short branches - were seen to be coherent along "
-    "one step sequence); label fd_not_confirmed counts the withdrawn ones",
+    "one step sequence), and only if the three estimates do not scatter by more than the disagreement (a value dominated by cancellation - "
+    "P(t) of branches of 1e-8 substitutions, the exponential coalescent at |growth| x time = 1e-8 - has a round-off staircase many ulps wide "
+    "that closely spaced probes do not see); labels fd_not_confirmed / fd_estimates_scatter count the withdrawn ones",
     "influence is asserted when |g_fd| > 50 x error estimate + 1e3 x round-off floor",
     "interval form: when the first tableau over [x-H, x+H] is inconsistent although the value is evaluated accurately (a jump or kink of the "
     "reported value inside the stencil, or a value varying on a much shorter scale), the back-propagated directional derivative is integrated "
     "over the interval (composite 5-point Gauss-Legendre, 1..8 panels, until the change of the last refinement is < 5% of the disagreement) and "
     "compared with f(x+H) - f(x-H) at 1e-5 of the scale: a gradient that is the derivative of the reported value integrates to its "
-    "differences; the same form is applied over [g/2, 2g] to the growth rate of the exponential coalescent (a parameter on a logarithmic scale "
+    "differences; the same form is applied over [g/2, 2g] (|g| >= 1e-3) or [max(g/8, 1e-6), 8g] (slow growth) to the growth rate of the exponential coalescent (a parameter on a logarithmic scale "
     "whose local stencil only spans 45% of its size), at 1e-4 of the scale; kind interval_mismatch, labels interval_check(_wide) / interval_check_open",
     "the growth rate of the exponential coalescent keeps its sign and moves by at most 45% of its size (0 is a singular point of the shipped "
     "formula: documented TODO); growth rates below 2e-6 in size are not generated (the formula loses its digits to cancellation there)",
@@ -610,12 +612,12 @@ class Engine:
             if not (math.isfinite(fb) and math.isfinite(fa)):
                 return None
             diff = fb - fa
-            # evaluation noise of the value at both ends (second differences of closely spaced evaluations carry no signal)
+            # evaluation noise of the value at both ends: fourth differences of evaluations 1e-3 of the width apart (see numdiff)
             sigma = 0.0
             for end in (lo, hi):
-                pv = [f(end + k * 1e-6 * (hi - lo)) for k in range(-3, 4)]
+                pv = [f(end + k * 1e-3 * (hi - lo)) for k in range(-4, 5)]
                 if all(math.isfinite(v) for v in pv):
-                    sigma = max(sigma, max(abs(pv[k] - 2.0 * pv[k + 1] + pv[k + 2]) for k in range(len(pv) - 2)) / 2.0)
+                    sigma = max(sigma, numdiff.noise_amplitude(pv))
             prev = None
             gmax = 0.0
             for m in (1, 2, 4, 8, 16, 32):
@@ -663,11 +665,20 @@ class Engine:
         out = []
         ok = True
         for scale in (0.77, 0.53):
-            g, err, meta = numdiff.derivative(f, r["h0"] * scale, probes=6)
+            g, err, meta = numdiff.derivative(f, r["h0"] * scale, probes=8)
             out.append([g, err])
             if not meta["finite"] or err > 1e-4 * max(1.0, abs(g)) or not bad(g, err, meta["noise"]):
                 ok = False
                 break
+        if ok:
+            # three estimates from unrelated step sequences: if they scatter more than their own error estimates admit, those
+            # estimates are not to be trusted (round-off of a value dominated by cancellation) and the scatter is the error
+            ests = [r["fd"]] + [o[0] for o in out]
+            spread = max(ests) - min(ests)
+            mid = 0.5 * (max(ests) + min(ests))
+            if spread > 2.0 * max([r["err"]] + [o[1] for o in out]) and not bad(mid, spread, 0.0):
+                ok = False
+                self.lab("fd_estimates_scatter")
         p.tensor = keep  # the tensor that carries the gradient
         if was and not p.requires_grad:
             p.requires_grad = True
@@ -688,7 +699,9 @@ class Engine:
         done = 0
         if inf.get("wide") and not inf["layers"] and g is not None and g.size == 1 and float(arr(x0).reshape(-1)[0]) != 0.0:
             x = float(arr(x0).reshape(-1)[0])
-            a, b = sorted((x / inf["wide"] - x, x * inf["wide"] - x))
+            near = math.copysign(max(abs(x) / inf["wide"], min(inf.get("wide_floor", 0.0), abs(x))), x)  # not below the accuracy limit of the formula
+            far = math.copysign(min(abs(x) * inf["wide"], max(inf.get("wide_cap", math.inf), abs(x))), x)  # exp(growth x time) stays in range
+            a, b = sorted((near - x, far - x))
             bad = self.interval_check(inf, np.ones(1), x0, a, b, rtol=1e-4)
             self.lab("interval_check_wide")
             self.evals += 1
@@ -1070,7 +1083,7 @@ def coal_specs(c):
     infos = [info("theta", cls, "theta", "pos")]
     if p["model"] == "exponential":
         spec["growth"] = tt.P("growth", p["growth"])
-        infos.append(dict(info("growth", cls, "growth", "real"), wide=2.0, nowrap=abs(p["growth"][0]) < 1e-3))
+        infos.append(dict(info("growth", cls, "growth", "real"), wide=8.0 if abs(p["growth"][0]) < 1e-3 else 2.0, wide_floor=1e-6, wide_cap=30.0 / max(g["c"]), nowrap=abs(p["growth"][0]) < 1e-3))
     if "grid" in p:
         if c.get("grid_param"):
             spec["grid"] = tt.P("grid", p["grid"])
@@ -1841,7 +1854,7 @@ def body_joint(c0):
             if abs(gr) * root > 30.0:
                 gr = math.copysign(30.0 / root, gr)
             spec["growth"] = tt.P("growth", [gr])
-            infos.append(dict(info("growth", cls, "growth", "real"), wide=2.0, nowrap=abs(gr) < 1e-3))
+            infos.append(dict(info("growth", cls, "growth", "real"), wide=8.0 if abs(gr) < 1e-3 else 2.0, wide_floor=1e-6, wide_cap=30.0 / root, nowrap=abs(gr) < 1e-3))
         if model in ("skygrid", "linear"):
             pts = sorted(f * root for f in co["gridf"][: size - 1])
             new = separate({j: t for j, t in enumerate(pts)}, [h[i] for i in range(2 * n - 1)], delta)
